@@ -62,7 +62,9 @@
 // must fail for each of them; FailsAt tells where)
 //
 //	AesGcm               key_size == 24                                       (aesgcm.NewAEAD, and the legacy key manager)
-//	AesGcm               iv_size != 12, tag_size != 16                        (aesgcm.NewAEAD refuses; FailsAt "constructor", see below)
+//	AesGcm               iv_size != 12, tag_size != 16                        (aesgcm.NewAEAD refuses; the key-manager fallback of the
+//	                                                                          factory cannot serialize the key: FailsAt "factory",
+//	                                                                          and NoSerialization, see below)
 //	AesCtrHmacAead       aes_key_size == 24                                   (internal/aead.NewAESCTR)
 //	AesSiv               key_size 32 or 48 (only 64 works)                    (daead/subtle.NewAESSIV)
 //	AesCmac              key_size == 16                                       (mac/subtle.ValidateCMACParams)
@@ -74,8 +76,19 @@
 //	PrfBasedDeriver      PRF key not HkdfPrf, HkdfPrf hash not SHA256/512 or key < 32 (FailsAt "factory");
 //	                     derived parameters of a type without key deriver     (FailsAt "use": keyderivation.New works, DeriveKeyset fails)
 //
-// DrawUsable never produces any of the above (nor Lossy keys).  It can still produce RSA-SSA-PSS
-// keys with salt_len 0, which sign and verify but cannot be serialized (Info.NoSerialization).
+// DrawUsable never produces any of the above.  It can still produce keys that work but cannot be
+// serialized (Info.NoSerialization): RSA-SSA-PSS keys with salt_len 0.
+//
+// # Not serializable (Info.NoSerialization)
+//
+//	RsaSsaPss        salt_len == 0                          ("salt length zero cannot be serialized"); Usable
+//	AesGcm           iv_size != 12 or tag_size != 16        (since repo commit 09abf34 the key and parameters
+//	                                                        serializers refuse what the proto cannot represent;
+//	                                                        before, they serialized lossily); not Usable
+//	PrfBasedDeriver  derived parameters are such AesGcm parameters (the key format cannot be serialized);
+//	                 Usable/FailsAt follow the PRF key as for every deriver: keyderivation.New and
+//	                 DeriveKeyset work on a handle built with keyset.Manager, the derived AES-GCM key is
+//	                 itself not usable
 //
 // Not generated at all: public keys that no private key constructor accepts (RSA public keys with an
 // exponent other than 65537: NewParameters/NewPublicKey accept odd e in [65537, 2^31-1], every
@@ -122,11 +135,10 @@ const (
 	FailsNowhere   = ""
 	FailsAtFactory = "factory" // the public factory (primitive constructor) returns an error
 	FailsAtUse     = "use"     // the factory succeeds, every operation fails
-	// FailsAtConstructor: the key type's own primitive constructor (aesgcm.NewAEAD) refuses the key, but
-	// the public keyset factory does NOT fail: internal/registryconfig swallows the constructor error,
-	// serializes the key (which drops iv_size / tag_size, see Lossy) and obtains a primitive from the
-	// legacy key manager.  aead.New therefore returns an AEAD that behaves as IV 12 / tag 16 whatever
-	// the key's parameters say.  Only AES-GCM with iv_size != 12 or tag_size != 16 is in this state.
+	// FailsAtConstructor is no longer produced.  It described AES-GCM keys with iv_size != 12 or
+	// tag_size != 16 while their serialization was lossy (the factory then silently fell back to a
+	// 12/16 key-manager primitive).  Since repo commit 09abf34 the serializer refuses such keys and
+	// the factory fails: they are FailsAtFactory + NoSerialization.  Kept so that callers compile.
 	FailsAtConstructor = "constructor"
 )
 
@@ -144,13 +156,17 @@ type Info struct {
 	Usable bool
 	// FailsAt says where a !Usable key fails ("" when Usable).
 	FailsAt string
-	// Lossy is true when proto serialization is known not to represent the parameters, so that
-	// SerializeKey followed by ParseKey yields a key that is NOT Equal (AES-GCM with iv_size != 12 or
-	// tag_size != 16, directly or as derived-key parameters of a deriver).
+	// Lossy is never set any more (kept for API stability).  It marked keys whose proto serialization
+	// dropped parameters (AES-GCM with iv_size != 12 or tag_size != 16); since repo commit 09abf34
+	// those are refused by the serializer and carry NoSerialization instead.
 	Lossy bool
-	// NoSerialization is true when SerializeKey refuses the key although the constructors accepted it
-	// (RSA-SSA-PSS with salt_len 0: "salt length zero cannot be serialized").  Such a key works in a
-	// keyset handle built with keyset.Manager but the handle cannot be written or converted.
+	// NoSerialization is true when protoserialization.SerializeKey refuses the key although the
+	// constructors accepted it: RSA-SSA-PSS with salt_len 0 ("salt length zero cannot be serialized"),
+	// AES-GCM with iv_size != 12 or tag_size != 16, and a PrfBasedDeriver whose derived-key parameters
+	// are such AES-GCM parameters.  Such a key can be put into a keyset handle with keyset.Manager (and,
+	// when Usable, works there), but the handle cannot be written or converted to a proto keyset.
+	// The flag says nothing about SerializeParameters (it refuses the AES-GCM cases, but accepts
+	// RSA-SSA-PSS parameters with salt length 0).
 	NoSerialization bool
 	Desc            string
 	Secrets         [][]byte
